@@ -47,6 +47,9 @@ pub enum DedupeOp {
 pub struct PathAndMetadata {
     pub path: Path,
     pub metadata: FileMetadata,
+    /// If the path is a symbolic link, the metadata of the link itself;
+    /// `metadata` are the metadata of the file the link points to
+    pub link_metadata: Option<fs::Metadata>,
 }
 
 impl PathAndMetadata {
@@ -57,7 +60,18 @@ impl PathAndMetadata {
                 format!("Failed to read metadata of {}: {}", path.display(), e),
             )
         })?;
-        Ok(PathAndMetadata { metadata, path })
+        let link_metadata = fs::symlink_metadata(path.to_path_buf()).map_err(|e| {
+            io::Error::new(
+                e.kind(),
+                format!("Failed to read metadata of {}: {}", path.display(), e),
+            )
+        })?;
+        let link_metadata = Some(link_metadata).filter(|m| m.file_type().is_symlink());
+        Ok(PathAndMetadata {
+            metadata,
+            path,
+            link_metadata,
+        })
     }
 }
 
@@ -507,10 +521,16 @@ fn was_modified(files: &[PathAndMetadata], after: DateTime<FixedOffset>, log: &d
     for PathAndMetadata {
         path: p,
         metadata: m,
-        ..
+        link_metadata: link,
     } in files.iter()
     {
-        match m.modified() {
+        // A symbolic link created or changed after the timestamp may point to another file now,
+        // even if that file has not been modified for a long time.
+        let modified = m.modified().and_then(|target_timestamp| match link {
+            Some(link) => Ok(max(target_timestamp, link.modified()?)),
+            None => Ok(target_timestamp),
+        });
+        match modified {
             Ok(file_timestamp) => {
                 let file_timestamp: DateTime<Local> = file_timestamp.into();
                 if file_timestamp > after {
